@@ -74,6 +74,13 @@ def hygiene_probes(tokens):
               ("value argument with a side effect, bit clear", 'unsigned n = 0; uint16_t v = 0x0401; int got = (libwifi_check_capabilities((n++, v), CAPABILITIES_PRIVACY)) != 0; printf("%u %d\\n", n, got);', "1 0"),
               ("reader argument returning successive fields", 'static const uint16_t f[3] = {0x0010, 0x0000, 0x0000}; unsigned i = 0; int got = (libwifi_check_capabilities(f[i++], CAPABILITIES_PRIVACY)) != 0; printf("%u %d\\n", i, got);', "1 1"),
               ("capability argument with a side effect", 'unsigned n = 0; uint16_t v = 0x0010; int got = (libwifi_check_capabilities(v, (n++, CAPABILITIES_PRIVACY))) != 0; printf("%u %d\\n", n, got);', "1 1")]
+    # the call as an operand: the expansion must be one primary expression, whatever stands next to it
+    probes += [("call as the left operand of ==", 'uint16_t v = 0x0002; int got = libwifi_check_capabilities(v, CAPABILITIES_IBSS) == 0; printf("%d\\n", got);', "0"),
+               ("call as the left operand of &&", 'uint16_t v = 0x0001; int got = libwifi_check_capabilities(v, CAPABILITIES_ESS) && libwifi_check_capabilities(v, CAPABILITIES_PRIVACY); printf("%d\\n", got);', "0"),
+               ("call as the right operand of *", 'uint16_t v = 0x0001; int got = (2 * libwifi_check_capabilities(v, CAPABILITIES_ESS)) != 0; printf("%d\\n", got);', "1"),
+               ("call as the operand of !", 'uint16_t v = 0x0001; int got = !libwifi_check_capabilities(v, CAPABILITIES_ESS); printf("%d\\n", got);', "0"),
+               ("call as the left operand of ||", 'uint16_t v = 0x0000; int got = libwifi_check_capabilities(v, CAPABILITIES_ESS) || 0; printf("%d\\n", got);', "0"),
+               ("call as the left operand of ?:", 'uint16_t v = 0x0000; int got = libwifi_check_capabilities(v, CAPABILITIES_ESS) ? 7 : 3; printf("%d\\n", got);', "3")]
     for t in sorted(set(tokens)):
         if re.match(r"^[A-Za-z_][A-Za-z0-9_]*$", t) and t not in ("LWV_X", "LWV_CAP") and t not in KEYWORDS and not t.startswith("__builtin"):
             probes.append(("caller variable named `%s`" % t, 'uint16_t field = 0x0431; unsigned %s = 0xffef; int got = (libwifi_check_capabilities(field & %s, CAPABILITIES_PRIVACY)) != 0; printf("%%d\\n", got);' % (t, t), "0"))
